@@ -56,6 +56,9 @@ type st struct {
 	tun    *world.Hop
 	conns  []*conn
 	seenOK int
+	// the listener speaks the PROXY protocol and every connection announces the SAME source address and port
+	// (a balancer may do that for connections to different destinations): they are still different connections
+	sameSource bool
 }
 
 const reqHead = "GET http://ok.test/x HTTP/1.1\r\nHost: ok.test\r\n\r\n"
@@ -69,6 +72,9 @@ func (s *st) open(phase string) *conn {
 	}
 	c := &conn{id: len(s.conns), phase: phase, raw: raw, s: raw}
 	s.conns = append(s.conns, c)
+	if s.sameSource {
+		raw.Send([]byte(fmt.Sprintf("PROXY TCP4 192.0.2.7 198.51.100.%d 40000 3128\r\n", 1+c.id)))
+	}
 	full := h1x.Pattern(3000, byte(c.id))
 	switch phase {
 	case "idle-no-byte":
@@ -139,8 +145,8 @@ func (c *conn) closedByProxy() bool {
 	return st.PeerClosed || st.Reset
 }
 
-func scenario(x *explore.X, maxConns, depth int, direct bool) {
-	s := &st{x: x, pki: world.NewPKI("harness CA")}
+func scenario(x *explore.X, maxConns, depth int, direct, sameSource bool) {
+	s := &st{x: x, pki: world.NewPKI("harness CA"), sameSource: sameSource}
 	n := 1 + x.Choose("connections-1", maxConns)
 	var ph []string
 	needMITM := false
@@ -151,7 +157,7 @@ func scenario(x *explore.X, maxConns, depth int, direct bool) {
 			needMITM = true
 		}
 	}
-	opts := world.Options{TransportCAPEM: s.pki.CAPEM, ShutdownTimeout: shutdownTO}
+	opts := world.Options{TransportCAPEM: s.pki.CAPEM, ShutdownTimeout: shutdownTO, ProxyProtocol: sameSource}
 	if needMITM {
 		opts.MITMDomains = []string{`^ok\.test$`}
 	}
@@ -528,7 +534,7 @@ func tlsListenerScenario(x *explore.X, maxConns int) {
 
 func TestC11(t *testing.T) {
 	s := explore.NewSuite(t, "C11", "model_checking",
-		"1-2 (quick) / 1-3 (thorough) client connections, each in one of 8 phases (idle before any byte, partial head, request at origin, reply head relayed and body pending, idle keep-alive, inside CONNECT tunnel, inside MITM idle, inside MITM with request at origin) [full product]; then shutdown, through Run's context and directly on the martian proxy (return value observable); then EVERY order of post-shutdown events (origin completes i, tunnel ends i, client i sends, client i aborts, new client connects, clock +600 ms, clock to idle timeout, clock past shutdown timeout) to depth 2 (quick) / 3 (thorough); states = quiescent event histories; invariants at every state: no request first sent after shutdown reaches an origin, in-flight exchanges are not cut before the deadline and complete in full with Connection: close and then the socket is closed, late connections get no byte, Shutdown returns nil only with all served connections closed and an error only at the deadline, after Run returns / after Close every accepted socket is closed and the open-connection counter is 0, no goroutine survives; plus (tls-listener) 1-2 (quick) / 1-3 (thorough) clients on a TLS listener in one of 6 phases around the handshake (silent, partial hello, closed before / in the middle of the hello with FIN or RST, handshake done and then closed) [full product], then Shutdown with a 30 s deadline: it must succeed with count 0 and every socket closed")
+		"1-2 (quick) / 1-3 (thorough) client connections, each in one of 8 phases (idle before any byte, partial head, request at origin, reply head relayed and body pending, idle keep-alive, inside CONNECT tunnel, inside MITM idle, inside MITM with request at origin) [full product]; then shutdown, through Run's context and directly on the martian proxy (return value observable); then EVERY order of post-shutdown events (origin completes i, tunnel ends i, client i sends, client i aborts, new client connects, clock +600 ms, clock to idle timeout, clock past shutdown timeout) to depth 2 (quick) / 3 (thorough); states = quiescent event histories; invariants at every state: no request first sent after shutdown reaches an origin, in-flight exchanges are not cut before the deadline and complete in full with Connection: close and then the socket is closed, late connections get no byte, Shutdown returns nil only with all served connections closed and an error only at the deadline, after Run returns / after Close every accepted socket is closed and the open-connection counter is 0, no goroutine survives; plus (tls-listener) 1-2 (quick) / 1-3 (thorough) clients on a TLS listener in one of 6 phases around the handshake (silent, partial hello, closed before / in the middle of the hello with FIN or RST, handshake done and then closed) [full product], then Shutdown with a 30 s deadline: it must succeed with count 0 and every socket closed; plus (same-announced-source) the shutdown family on a PROXY-protocol listener where every connection announces the same source address and port")
 	s.Assume = []string{"virtual clock; sync.Mutex of proxy.go replaced by a durably-blocking mutex at build time (Shutdown holds connsMu across its timed wait)", "(registration-vs-shutdown) sync.Mutex / atomic.Int32 / sync.Once and the go statement of internal/martian/proxy.go are redirected at build time to a cooperative scheduler: all interleavings of 1 (quick) / 1-2 (thorough) handleLoop registrations, Shutdown and Close with at most 2 preemptions; the iteration order of the connection map in Close is an explored choice"}
 	for _, tier := range []string{"quick", "thorough"} {
 		mc := map[string]int{"quick": 2, "thorough": 2}[tier]
@@ -536,9 +542,13 @@ func TestC11(t *testing.T) {
 		for _, direct := range []bool{false, true} {
 			direct := direct
 			s.Add(explore.Scenario{Name: fmt.Sprintf("shutdown-%s-direct=%v", tier, direct), Remote: true, Tiers: []string{tier}, MaxDev: map[string]int{"quick": 1, "thorough": 1},
-				Run: func(x *explore.X) { world.Run(t, x, func() { scenario(x, mc, depth, direct) }) }})
+				Run: func(x *explore.X) { world.Run(t, x, func() { scenario(x, mc, depth, direct, false) }) }})
 		}
 	}
+	s.Add(explore.Scenario{Name: "same-announced-source-quick", Remote: true, Tiers: []string{"quick"}, MaxDev: map[string]int{"quick": 1},
+		Run: func(x *explore.X) { world.Run(t, x, func() { scenario(x, 2, 1, true, true) }) }})
+	s.Add(explore.Scenario{Name: "same-announced-source-thorough", Remote: true, Tiers: []string{"thorough"}, MaxDev: map[string]int{"thorough": 1},
+		Run: func(x *explore.X) { world.Run(t, x, func() { scenario(x, 2, 2, true, true) }) }})
 	s.Add(explore.Scenario{Name: "registration-vs-shutdown-quick", Remote: true, Tiers: []string{"quick"}, MaxDev: map[string]int{"quick": 2},
 		Run: func(x *explore.X) { registrationScenario(t, x, 1) }})
 	s.Add(explore.Scenario{Name: "registration-vs-shutdown-thorough", Remote: true, Tiers: []string{"thorough"}, MaxDev: map[string]int{"thorough": 2},
